@@ -13,13 +13,14 @@
 //!     of known types and the ignored bodies of EndOfMessage/KeepAlive) and parses back equal.
 use crate::stubs;
 use ntp_proto::verif::nts::messages::{KeRequest, Response};
+use ntp_proto::verif::nts::record as rh;
 use ntp_proto::verif::nts::record::Record;
 use ntp_proto::verif::nts::{Aead, KeErrorCode, KeWarningCode};
 use std::borrow::Cow;
 use std::future::Future;
 use std::pin::{Pin, pin};
 use std::task::{Context, Poll, Waker};
-use tokio::io::{AsyncRead, ReadBuf};
+use tokio::io::{AsyncRead, AsyncReadExt, ReadBuf};
 
 /// Poll a future once with a no-op waker; every reader/writer in this module is always ready.
 /// The completed future is deliberately not dropped: the drop glue of an `async fn` state machine
@@ -125,11 +126,41 @@ impl AsyncRead for HeadBody<'_> {
 // makes symbolic execution walk all 15 sub-parsers for every input). Symbolic: the announced body
 // length (0..=65535), the body bytes and how many of them are available (0..=NB).
 // Truncated headers: c30_record_short_header.
-fn record_body<const NB: usize>(ty: u16, crit: bool) {
+/// Run the body parser for record type `ty` on a reader positioned after the header.
+fn sub_parse(ty: u16, rd: &mut HeadBody<'_>, size: u64) -> Result<Record<'static>, std::io::Error> {
+    match ty {
+        0 => block_on_ready(rh::sub_end_of_message(rd.take(size))),
+        1 => block_on_ready(rh::sub_next_protocol(rd.take(size))),
+        2 => block_on_ready(rh::sub_error(rd.take(size))),
+        3 => block_on_ready(rh::sub_warning(rd.take(size))),
+        4 => block_on_ready(rh::sub_aead_algorithm(rd.take(size))),
+        5 => block_on_ready(rh::sub_new_cookie(rd.take(size))),
+        6 => block_on_ready(rh::sub_server(rd.take(size))),
+        7 => block_on_ready(rh::sub_port(rd.take(size))),
+        8 => block_on_ready(rh::sub_keep_alive(rd.take(size))),
+        9 => block_on_ready(rh::sub_supported_next_protocol_list(rd.take(size))),
+        10 => block_on_ready(rh::sub_supported_algorithm_list(rd.take(size))),
+        12 => block_on_ready(rh::sub_fixed_key_request(rd.take(size))),
+        13 => block_on_ready(rh::sub_ntp_server_deny(rd.take(size))),
+        14 => block_on_ready(rh::sub_authentication(rd.take(size))),
+        _ => panic!("no body parser for this type: use the full parser"),
+    }
+}
+
+/// `full`: drive `NtsRecord::parse` (header + dispatch + body); otherwise drive the body parser of
+/// the type directly on `Take(announced length)` exactly as `parse` sets it up.
+/// `fixed`: concrete (announced length, available bytes) instead of symbolic ones.
+fn record_body<const NB: usize>(ty: u16, crit: bool, full: bool, fixed: Option<(usize, usize)>) -> Option<usize> {
     let body_bytes: [u8; NB] = kani::any();
-    let size_field: usize = kani::any();
-    let blen: usize = kani::any();
-    kani::assume(blen <= NB && size_field <= 65535);
+    let (size_field, blen) = match fixed {
+        Some(f) => f,
+        None => {
+            let size_field: usize = kani::any();
+            let blen: usize = kani::any();
+            kani::assume(blen <= NB && size_field <= 65535);
+            (size_field, blen)
+        }
+    };
     // header bytes are built from the concrete parameters only (kept apart from the symbolic body
     // so that they stay constants for the parser's dispatch and length handling)
     let head = [(ty >> 8) as u8 | if crit { 0x80 } else { 0 }, ty as u8, (size_field >> 8) as u8, size_field as u8];
@@ -138,19 +169,27 @@ fn record_body<const NB: usize>(ty: u16, crit: bool) {
     bytes[..4].copy_from_slice(&head);
     bytes[4..4 + NB].copy_from_slice(&body_bytes);
     let mut rd = HeadBody { head, head_pos: 0, body: &body_bytes[..blen], body_pos: 0 };
-    let res = block_on_ready(Record::parse(&mut rd));
+    let res = if full {
+        block_on_ready(Record::parse(&mut rd))
+    } else {
+        rd.head_pos = 4;
+        sub_parse(ty, &mut rd, size_field as u64)
+    };
     let consumed = rd.head_pos + rd.body_pos;
     assert!(consumed <= len, "never reads past the input");
     match res {
         Err(e) => {
             // (dropping an `io::Error` walks the drop glue of every `dyn Error` in the program)
             std::mem::forget(e);
-            kani::cover!(size_field > blen, "rejected: announced body not completely present");
             // Independent completeness spot checks (RFC 8915): a complete opaque record
             // (NewCookie, unknown type) is never rejected.
             if size_field + 4 <= len {
                 assert!(ty != 5 && ty != 11 && ty < 15, "complete opaque record rejected");
+                if ty == 6 || ty == 13 || ty == 14 {
+                    assert!(std::str::from_utf8(&body_bytes[..size_field]).is_err(), "complete UTF-8 name record rejected");
+                }
             }
+            None
         }
         Ok(r) => {
             let critical = crit;
@@ -174,7 +213,7 @@ fn record_body<const NB: usize>(ty: u16, crit: bool) {
             macro_rules! bad {
                 () => {{
                     assert!(false, "record type parsed into the wrong variant");
-                    return;
+                    return None;
                 }};
             }
             let r: Record<'_> = match ty {
@@ -344,7 +383,10 @@ fn record_body<const NB: usize>(ty: u16, crit: bool) {
             let h0 = (ty >> 8) as u8;
             assert!(out[0] & 0x7f == h0 && out[1] == ty as u8);
             let mut rd2 = HeadBody { head: [if crit2 { h0 | 0x80 } else { h0 }, ty as u8, out[2], out[3]], head_pos: 0, body: &out[4..n], body_pos: 0 };
-            let back = if crit2 {
+            let back = if !full {
+                rd2.head_pos = 4;
+                sub_parse(ty, &mut rd2, be16(&out, 2) as u64)
+            } else if crit2 {
                 rd2.head[0] = h0 | 0x80;
                 block_on_ready(Record::parse(&mut rd2))
             } else {
@@ -362,106 +404,120 @@ fn record_body<const NB: usize>(ty: u16, crit: bool) {
                 }
             }
             assert!(rd2.head_pos + rd2.body_pos == n, "re-parse consumes the whole serialisation");
-            kani::cover!(size == NB || ((ty == 2 || ty == 3 || ty == 7) && size == 2), "accepted a record with the largest body in bounds");
-            kani::cover!(crit, "accepted with the critical bit set");
-            kani::cover!(!crit, "accepted with the critical bit clear");
             std::mem::forget(r);
+            Some(size)
         }
     }
 }
 
-macro_rules! record_harness {
-    ($name:ident, $ty:expr, $n:expr, $unwind:expr) => {
+macro_rules! body_harness {
+    ($name:ident, $ty:expr, $crit:expr, $unwind:expr, $maxsize:expr) => {
         #[kani::proof]
         #[kani::unwind($unwind)]
         fn $name() {
-            record_body::<$n>($ty, false);
-            record_body::<$n>($ty, true);
+            let r = record_body::<4>($ty, $crit, false, None);
+            kani::cover!(r.is_none(), "rejected");
+            kani::cover!(r == Some($maxsize), "accepted with the largest body in bounds");
         }
     };
 }
-record_harness!(c30_record_00_end_of_message, 0, 8, 14);
-record_harness!(c30_record_01_next_protocol, 1, 4, 4);
-record_harness!(c30_record_02_error, 2, 4, 14);
-record_harness!(c30_record_03_warning, 3, 4, 14);
-record_harness!(c30_record_04_aead_algorithm, 4, 8, 14);
-record_harness!(c30_record_05_new_cookie, 5, 8, 14);
-record_harness!(c30_record_06_server, 6, 4, 14);
-record_harness!(c30_record_07_port, 7, 4, 4);
-record_harness!(c30_record_08_keep_alive, 8, 8, 14);
-record_harness!(c30_record_09_supported_protocols, 9, 8, 14);
-record_harness!(c30_record_10_supported_algorithms, 10, 8, 14);
-record_harness!(c30_record_11_unassigned, 11, 8, 14);
-record_harness!(c30_record_12_fixed_key_request, 12, 8, 14);
-record_harness!(c30_record_13_server_deny, 13, 4, 14);
-record_harness!(c30_record_14_authentication, 14, 4, 14);
-record_harness!(c30_record_15_unknown_low, 15, 8, 14);
-record_harness!(c30_record_7fff_unknown_high, 0x7fff, 8, 14);
-record_harness!(c30_record_4d2_unknown_mid, 0x04d2, 8, 14);
+macro_rules! fixed_body_harness {
+    ($name:ident, $ty:expr, $crit:expr, $unwind:expr, $ok:expr, $bad:expr) => {
+        #[kani::proof]
+        #[kani::unwind($unwind)]
+        fn $name() {
+            // complete layout: accepted
+            let r = record_body::<4>($ty, $crit, false, Some($ok));
+            assert!(r.is_some(), "well-formed body rejected");
+            // malformed layout (truncated or wrong length): rejected
+            let r = record_body::<4>($ty, $crit, false, Some($bad));
+            assert!(r.is_none(), "malformed body accepted");
+        }
+    };
+}
+macro_rules! name_body_harness {
+    ($name:ident, $ty:expr, $crit:expr, $unwind:expr, $ok:expr, $bad:expr) => {
+        #[kani::proof]
+        #[kani::unwind($unwind)]
+        fn $name() {
+            // complete layout: accepted iff the symbolic body is UTF-8 (asserted in record_body)
+            let r = record_body::<4>($ty, $crit, false, Some($ok));
+            kani::cover!(r.is_some(), "accepted");
+            kani::cover!(r.is_none(), "rejected: not UTF-8");
+            let r = record_body::<4>($ty, $crit, false, Some($bad));
+            assert!(r.is_none(), "truncated body accepted");
+        }
+    };
+}
+macro_rules! full_harness {
+    ($name:ident, $ty:expr, $crit:expr, $unwind:expr, $layout:expr, $accept:expr) => {
+        #[kani::proof]
+        #[kani::unwind($unwind)]
+        fn $name() {
+            let r = record_body::<4>($ty, $crit, true, Some($layout));
+            // expected outcome of this layout according to RFC 8915
+            assert!(r.is_some() == $accept, "layout accepted/rejected against the record format");
+        }
+    };
+}
+// Body parsers, driven directly.
+// Fixed-size bodies: announced length 0..=65535 and 0..=4 available bytes, all symbolic.
+body_harness!(c30_body_02_error, 2, true, 4, 2);
+body_harness!(c30_body_03_warning, 3, true, 4, 2);
+body_harness!(c30_body_07_port, 7, true, 4, 2);
+// Variable-size bodies: a symbolic announced length makes `Vec::with_capacity(len)` /
+// `vec![0; len]` symbolic-size heap objects (measured: out of memory at 8 GB for one id list and
+// for one cookie). Layout templates instead: (announced length, available bytes) concrete, body
+// bytes symbolic; one accepted and one rejected layout per type.
+fixed_body_harness!(c30_body_00_end_of_message, 0, true, 5, (3, 3), (3, 2));
+fixed_body_harness!(c30_body_01_next_protocol, 1, true, 4, (2, 2), (1, 1));
+fixed_body_harness!(c30_body_04_aead_algorithm, 4, true, 4, (2, 2), (2, 1));
+fixed_body_harness!(c30_body_05_new_cookie, 5, false, 6, (4, 4), (4, 3));
+name_body_harness!(c30_body_06_server, 6, true, 6, (4, 4), (4, 3));
+fixed_body_harness!(c30_body_08_keep_alive, 8, false, 5, (0, 0), (1, 0));
+fixed_body_harness!(c30_body_09_supported_protocols, 9, true, 4, (2, 2), (1, 1));
+fixed_body_harness!(c30_body_10_supported_algorithms, 10, true, 4, (4, 4), (2, 2));
+fixed_body_harness!(c30_body_12_fixed_key_request, 12, true, 6, (4, 4), (3, 3));
+name_body_harness!(c30_body_13_server_deny, 13, false, 6, (3, 3), (3, 2));
+name_body_harness!(c30_body_14_authentication, 14, false, 6, (2, 2), (4, 2));
+// `NtsRecord::parse` as a whole (header, critical bit, dispatch, unknown types) on concrete
+// layouts (announced length, available bytes) with symbolic body bytes: one `parse` costs ~40 s of
+// symbolic execution and ~5M SAT variables (the state machine is a union over 15 sub-parsers,
+// two of them with 512-byte buffers), so one layout per harness.
+full_harness!(c30_full_07_port, 7, false, 4, (2, 2), true);
+full_harness!(c30_full_15_unknown_critical, 15, true, 6, (3, 3), true);
+full_harness!(c30_full_7fff_unknown, 0x7fff, false, 6, (0, 0), true);
+full_harness!(c30_full_11_unassigned_truncated, 11, false, 6, (4, 3), false);
+full_harness!(c30_full_00_end_of_message, 0, false, 5, (1, 1), true);
+full_harness!(c30_full_04_aead_algorithm, 4, true, 4, (4, 4), true);
+full_harness!(c30_full_05_new_cookie, 5, true, 6, (4, 4), true);
+full_harness!(c30_full_02_error_oversize, 2, false, 4, (3, 3), false);
 
-/// Truncated headers (0..=3 bytes available): always an error, nothing beyond the input consumed.
+/// Truncated headers (0..=3 bytes available): always an error. The available bytes are concrete
+/// (type Port, critical) except the third one, so that the failing read is decided during
+/// symbolic execution and the 15 body parsers are not walked for every length.
 #[kani::proof]
-#[kani::unwind(8)]
+#[kani::unwind(6)]
 fn c30_record_short_header() {
-    let bytes: [u8; 3] = kani::any();
+    let x: u8 = kani::any();
+    let bytes = [0x80u8, 0x07, x];
     let mut len = 0;
     while len < 4 {
-        let mut rd: &[u8] = &bytes[..len];
+        let mut rd = HeadBody { head: [bytes[0], bytes[1], bytes[2], 0], head_pos: 4 - len, body: &[], body_pos: 0 };
+        // the reader starts `len` bytes before its end of header: shift the available bytes
+        let mut i = 0;
+        while i < len {
+            rd.head[4 - len + i] = bytes[i];
+            i += 1;
+        }
         let res = block_on_ready(Record::parse(&mut rd));
-        assert!(res.is_err(), "accepted a record without a complete header");
+        match res {
+            Ok(r) => {
+                std::mem::forget(r);
+                assert!(false, "accepted a record without a complete header");
+            }
+            Err(e) => std::mem::forget(e),
+        }
         len += 1;
-    }
-}
-
-
-#[kani::proof]
-#[kani::unwind(4)]
-fn probe_port_min() {
-    let body_bytes: [u8; 4] = kani::any();
-    let size_field: usize = kani::any();
-    let blen: usize = kani::any();
-    kani::assume(blen <= 4 && size_field <= 65535);
-    let head = [0x80, 7, (size_field >> 8) as u8, size_field as u8];
-    let mut rd = HeadBody { head, head_pos: 0, body: &body_bytes[..blen], body_pos: 0 };
-    let res = block_on_ready(Record::parse(&mut rd));
-    match res {
-        Ok(r) => {
-            assert!(size_field == 2 && blen >= 2);
-            std::mem::forget(r);
-        }
-        Err(e) => std::mem::forget(e),
-    }
-}
-
-async fn my_port(mut reader: tokio::io::Take<impl AsyncRead + Unpin>) -> Result<u16, std::io::Error> {
-    use tokio::io::AsyncReadExt;
-    let port = reader.read_u16().await?;
-    if reader.limit() != 0 { Err(std::io::ErrorKind::InvalidData.into()) } else { Ok(port) }
-}
-async fn my_parse(mut reader: impl AsyncRead + Unpin) -> Result<u16, std::io::Error> {
-    use tokio::io::AsyncReadExt;
-    let ty = reader.read_u16().await?;
-    let size = reader.read_u16().await?;
-    let body = reader.take(size.into());
-    match ty & 0x7fff {
-        7 => my_port(body).await,
-        _ => Err(std::io::ErrorKind::InvalidData.into()),
-    }
-}
-#[kani::proof]
-#[kani::unwind(4)]
-fn probe_port_mine() {
-    let body_bytes: [u8; 4] = kani::any();
-    let size_field: usize = kani::any();
-    let blen: usize = kani::any();
-    kani::assume(blen <= 4 && size_field <= 65535);
-    let head = [0x80, 7, (size_field >> 8) as u8, size_field as u8];
-    let mut rd = HeadBody { head, head_pos: 0, body: &body_bytes[..blen], body_pos: 0 };
-    let res = block_on_ready(my_parse(&mut rd));
-    match res {
-        Ok(r) => {
-            assert!(size_field == 2 && blen >= 2);
-        }
-        Err(e) => std::mem::forget(e),
     }
 }
